@@ -560,7 +560,19 @@ def check_reads(ctx, M: Messages, kind: str, rule: str, readers: list) -> int:
                             break
                         if (m_.get("optional") or "default" in m_) and isinstance(step, ast.Subscript):
                             cont = _sem.cx(step.value)
-                            if not any(a_ == f"in('{k_}',{cont})" or a_ == f"in('{k_}',{cont}.keys())" for a_ in facts_):
+                            tested = {f"in('{k_}',{cont})", f"in('{k_}',{cont}.keys())", f"!is(None,{cont}.get('{k_}'))",
+                                      f"truthy({cont}.get('{k_}'))"}
+                            # ... or the read sits in a try block that handles the missing key
+                            caught, cur_n = False, node
+                            while id(cur_n) in fl.parent and not caught:
+                                par_n = fl.parent[id(cur_n)]
+                                if isinstance(par_n, ast.Try) and any(cur_n is b_ for b_ in par_n.body):
+                                    for h_ in par_n.handlers:
+                                        names_ = [dotted(e_) for e_ in (h_.type.elts if isinstance(h_.type, ast.Tuple) else [h_.type])] if h_.type is not None else [None]
+                                        if any(n_ in (None, "KeyError", "LookupError", "Exception", "BaseException") for n_ in names_):
+                                            caught = True
+                                cur_n = par_n
+                            if not (facts_ & tested) and not caught:
                                 opt_unguarded.append(k_)
                         cur_t = S_.resolve(m_, cur_t.get("_module"))
                     else:
